@@ -96,6 +96,10 @@ func cmdCheck(args []string) int {
 		*tier = "quick"
 	}
 	seed, _ := strconv.Atoi(os.Getenv("VERIF_SEED"))
+	if *tier == "thorough" && os.Getenv("GOSMT_CROSSCHECK") == "" {
+		// thorough: every solver-decided obligation is also asked of z3 4.8.12; verdicts must agree
+		os.Setenv("GOSMT_CROSSCHECK", "z3")
+	}
 	if *workers <= 0 {
 		*workers = runtime.NumCPU()
 	}
@@ -405,7 +409,9 @@ func buildEvidence(id, tier string, seed int, spec checkSpec, results []*harness
 	natives := map[string]bool{}
 	stubs := map[string]bool{}
 	perHarness := []interface{}{}
+	crossTotal := 0
 	for _, r := range results {
+		crossTotal += r.CrossChecks
 		states += r.Paths
 		transitions += r.Steps
 		queries += r.Queries
@@ -464,6 +470,8 @@ func buildEvidence(id, tier string, seed int, spec checkSpec, results []*harness
 		"solver_time_s":           solverS,
 		"solver_versions":         []string{strings.TrimSpace(string(z3v))},
 		"per_harness":             perHarness,
+		"cross_checked_obligations": crossTotal,
+		"cross_check_solver":        os.Getenv("GOSMT_CROSSCHECK"),
 		"known_findings_seen":     knownLines,
 		"inconclusive":            problems,
 		"exhaustive_within_bound": len(problems) == 0,
@@ -718,6 +726,24 @@ func getNativeSession(pkg, harnessDir string) *nativeSession {
 			fmt.Fprintf(&table, "\t%q: %s,\n", string(m[1]), string(m[1]))
 		}
 		repl[filepath.Join(pkgDir, "zz_verif_"+filepath.Base(f))] = f
+	}
+	// the package's own tests are not needed in the replay binary: overlay them with empty files
+	// (keeps the build to the package itself plus the harness)
+	if own, _ := filepath.Glob(filepath.Join(pkgDir, "*_test.go")); len(own) > 0 {
+		pre := regexp.MustCompile(`(?m)^package\s+(\w+)`)
+		for k, tf := range own {
+			b, err := os.ReadFile(tf)
+			if err != nil {
+				continue
+			}
+			m := pre.FindSubmatch(b)
+			if m == nil {
+				continue
+			}
+			empty := filepath.Join(tmp, fmt.Sprintf("empty_%d_test.go", k))
+			os.WriteFile(empty, []byte("package "+string(m[1])+"\n"), 0o644)
+			repl[tf] = empty
+		}
 	}
 	dirs, derr := harnessStubDirectives(files)
 	if derr != nil {
